@@ -25,6 +25,7 @@ structure PState (R : Type) where
   deps : List Bool := []
   recs : List (Rec R) := []
   w : World R := World.empty
+  names : Names := []
 
 inductive State where
   | none
@@ -38,7 +39,7 @@ variable {R : Type} [Elem R]
 
 def flag (ok : Bool) (s : String) : String := if ok then s else s ++ " MODEL-SPEC-DISAGREE"
 
-def stepInstr (s : PState R) (ins : Instr R) (x : Option R) : PState R × String :=
+def stepInstr (s : PState R) (name : String) (ins : Instr R) (x : Option R) : PState R × String :=
   let pos := s.vs.length
   let envL := match x with
     | some x => (pos, x) :: s.envL
@@ -51,7 +52,7 @@ def stepInstr (s : PState R) (ins : Instr R) (x : Option R) : PState R × String
   | .ok r =>
     let agree := r.number == v && r.isConstant == !dep
     ({ prog := s.prog ++ [ins], envL := envL, vs := s.vs ++ [v], deps := s.deps ++ [dep],
-       recs := s.recs ++ [r], w := w' },
+       recs := s.recs ++ [r], w := w', names := (name, pos) :: s.names },
      flag agree s!"v={Elem.render v} const={if dep then 0 else 1} ## idx={r.index}")
   | .panic k => ({ s with w := w' }, s!"MODEL-SPEC-DISAGREE panic({k})")
 
@@ -79,17 +80,18 @@ def stepDerivs (s : PState R) (k : Nat) (try_ : Bool) : String :=
 def stepP (s : PState R) (toks : List String) : PState R × String :=
   match toks with
   | ["derivs", r] | ["derivs", r, _] =>
-    match nameIdx r with
+    match s.names.find r with
     | some k => (s, stepDerivs s k false)
-    | none => (s, "bad-op")
+    | none => (s, "bad-ref")
   | ["tryderivs", r] | ["tryderivs", r, _] =>
-    match nameIdx r with
+    match s.names.find r with
     | some k => (s, stepDerivs s k true)
-    | none => (s, "bad-op")
-  | _ =>
-    match parseInstr (R := R) toks with
-    | some (ins, x) => stepInstr s ins x
-    | none => (s, "bad-op")
+    | none => (s, "bad-ref")
+  | _ :: name :: _ =>
+    match parseInstr (R := R) s.names toks with
+    | some (ins, x) => stepInstr s name ins x
+    | none => (s, if knownOp toks then "bad-ref" else "bad-op")
+  | _ => (s, "bad-op")
 
 end
 
